@@ -196,7 +196,7 @@ Print Assumptions propagation_oscillation_refuted.
 
 (** * 7. louvain_core.pyx: optimize_core — accesses in range for EVERY fuel.
     Contract of the caller (Louvain._optimize): labels are node indices, all per-node / per-cluster arrays
-    have n entries. Termination of [while not stop] is NOT claimed here. *)
+    have n entries. (Termination of [while not stop] for tol > 0 is proved in section 8: optimize_core_flat_terminates.) *)
 Theorem optimize_core_safe fuel n labels indices indptr
         (data out_weights in_weights out_cluster_weights in_cluster_weights cluster_weights self_loops : list Q)
         res tol :
@@ -261,3 +261,107 @@ Example optimize_core_example :
   | _ => False
   end.
 Proof. vm_compute. auto. Qed.
+
+(** * 8. louvain_core.pyx: optimize_core terminates for tol > 0 (Proofs/LouvainFlatTermination.v)
+
+    The flat model SIMULATES the exact-rational model of Model/Louvain.v (the one Props/C06.v is about):
+    same labels, same decisions, arrays equal as rationals. [csr_graph n indptr indices data] is the
+    weighted graph denoted by the CSR arrays; [objective] is the quantity the kernel optimises,
+    sum_ij (A_ij - res * out_i * in_j) delta(l_i, l_j); [csum g labels w c] = sum of w over the nodes labelled c.
+    Contract of the caller (Louvain._optimize / Leiden._optimize): the adjacency is symmetric (A + A^T),
+    self_loops is its diagonal, labels < n, out/in_cluster_weights are the per-label sums of the node
+    weights, cluster_weights is zero. *)
+From SKN Require Import Model.Modularity Model.Louvain Proofs.ModularityProofs Proofs.LouvainProofs Proofs.LouvainTermination Proofs.LouvainFlatTermination.
+
+(** Whenever the pass loop of Model/Louvain.v returns within [fuel] passes, so does the flat kernel, with
+    the same labels and the same total increase. *)
+Theorem optimize_core_flat_refines fuel n labels indices indptr
+        (data out_weights in_weights out_cluster_weights in_cluster_weights cluster_weights self_loops : list Q)
+        res tol st' inc' :
+  csr_wf n indptr indices data ->
+  length labels = n -> Forall (fun l => l < n) labels ->
+  length out_weights = n -> length in_weights = n -> length out_cluster_weights = n ->
+  length in_cluster_weights = n -> length cluster_weights = n -> length self_loops = n ->
+  opt_loop fuel (csr_graph n indptr indices data) out_weights in_weights self_loops res tol
+           {| k_labels := labels; k_out_cw := out_cluster_weights; k_in_cw := in_cluster_weights;
+              k_cw := cluster_weights; k_inc_pass := 0%Q; k_margin := marg0 |} 0%Q = Some (st', inc') ->
+  exists increase passes,
+    optimize_core fuel labels indices indptr data out_weights in_weights out_cluster_weights
+                  in_cluster_weights cluster_weights self_loops res tol
+    = KOk (k_labels st', increase, passes) /\ (increase == inc')%Q.
+Proof.
+  exact (LouvainFlatTermination.optimize_core_flat_refines fuel n labels indices indptr data out_weights
+           in_weights out_cluster_weights in_cluster_weights cluster_weights self_loops res tol st' inc').
+Qed.
+Print Assumptions optimize_core_flat_refines.
+
+(** tol > 0, B any upper bound of the objective (e.g. [objective_bound], or 1 after _pre_processing of a
+    non-negative matrix with resolution >= 0, Props/C06.v): [pass_fuel B q0 tol] = ceil((B - q0) / tol) + 1
+    passes suffice — the kernel returns (neither OutOfFuel nor OOB). *)
+Theorem optimize_core_flat_terminates fuel n labels indices indptr
+        (data out_weights in_weights out_cluster_weights in_cluster_weights cluster_weights self_loops : list Q)
+        res tol B :
+  csr_wf n indptr indices data ->
+  let g := csr_graph n indptr indices data in
+  wsymmetric g ->
+  (forall i, i < n -> (nthq self_loops i == entry g i i)%Q) ->
+  length labels = n -> Forall (fun l => l < n) labels ->
+  length out_weights = n -> length in_weights = n -> length out_cluster_weights = n ->
+  length in_cluster_weights = n -> length cluster_weights = n -> length self_loops = n ->
+  (forall c, c < n -> (nthq out_cluster_weights c == csum g labels out_weights c)%Q) ->
+  (forall c, c < n -> (nthq in_cluster_weights c == csum g labels in_weights c)%Q) ->
+  (forall c, c < n -> (nthq cluster_weights c == 0)%Q) ->
+  (0 < tol)%Q -> (forall l, (objective g out_weights in_weights res l <= B)%Q) ->
+  pass_fuel B (objective g out_weights in_weights res labels) tol <= fuel ->
+  exists labels' increase passes,
+    optimize_core fuel labels indices indptr data out_weights in_weights out_cluster_weights
+                  in_cluster_weights cluster_weights self_loops res tol
+    = KOk (labels', increase, passes).
+Proof.
+  exact (optimize_core_flat_terminates_ok fuel n labels indices indptr data out_weights in_weights
+           out_cluster_weights in_cluster_weights cluster_weights self_loops res tol B).
+Qed.
+Print Assumptions optimize_core_flat_terminates.
+
+(** Louvain._optimize's call (labels = arange(n), cluster weights = copies of the node weights,
+    cluster_weights = zeros(n)) with the fuel computed from the inputs. *)
+Theorem optimize_core_flat_louvain_terminates fuel n indices indptr
+        (data out_weights in_weights self_loops : list Q) res tol :
+  csr_wf n indptr indices data ->
+  let g := csr_graph n indptr indices data in
+  wsymmetric g ->
+  (forall i, i < n -> (nthq self_loops i == entry g i i)%Q) ->
+  length out_weights = n -> length in_weights = n -> length self_loops = n ->
+  (0 < tol)%Q ->
+  pass_fuel (objective_bound g out_weights in_weights res)
+            (objective g out_weights in_weights res (seq 0 n)) tol <= fuel ->
+  optimize_core fuel (seq 0 n) indices indptr data out_weights in_weights out_weights in_weights
+                (repeat 0%Q n) self_loops res tol <> OutOfFuel.
+Proof.
+  exact (optimize_core_flat_louvain_terminates_ok fuel n indices indptr data out_weights in_weights
+           self_loops res tol).
+Qed.
+Print Assumptions optimize_core_flat_louvain_terminates.
+
+(** Non-vacuity: the input of [optimize_core_example] meets the contract; with tol = 1/100 the computed
+    fuel is 111 passes (130 with the bound B = 1). *)
+Example optimize_core_terminates_example :
+  let indptr := [0; 2; 4; 7; 8] in
+  let indices := [1; 2; 0; 2; 0; 1; 3; 2] in
+  let data := [1 # 8; 1 # 8; 1 # 8; 1 # 8; 1 # 8; 1 # 8; 1 # 8; 1 # 8]%Q in
+  let w := [2 # 8; 2 # 8; 3 # 8; 1 # 8]%Q in
+  let g := csr_graph 4 indptr indices data in
+  csr_wf 4 indptr indices data /\ wsymmetric g /\
+  (forall i, i < 4 -> (nthq (repeat 0%Q 4) i == entry g i i)%Q) /\
+  pass_fuel (objective_bound g w w 1%Q) (objective g w w 1%Q (seq 0 4)) (1 # 100)%Q = 111 /\
+  pass_fuel 1%Q (objective g w w 1%Q (seq 0 4)) (1 # 100)%Q = 130 /\
+  exists increase, optimize_core 111 (seq 0 4) indices indptr data w w w w (repeat 0%Q 4) (repeat 0%Q 4)
+                                 1%Q (1 # 100)%Q = KOk ([1; 1; 3; 3], increase, 2).
+Proof.
+  cbv zeta. split; [apply csr_wf_b_sound; reflexivity|].
+  split; [apply wsymmetricb_ok; vm_compute; reflexivity|].
+  split.
+  - intros i Hi. do 4 (destruct i as [|i]; [vm_compute; reflexivity|]). lia.
+  - split; [vm_compute; reflexivity|]. split; [vm_compute; reflexivity|].
+    eexists. vm_compute. reflexivity.
+Qed.
